@@ -107,6 +107,12 @@ class _Case:
         self.atoms.append((t, v))
         return v
 
+    def reduce(self, e):
+        # a conditional expression is decided like an if statement
+        while isinstance(e, ast.IfExp):
+            e = e.body if self.truth(e.test) else e.orelse
+        return e
+
     def run(self, stmts):
         """returns True when a return/raise ended the run"""
         for st in stmts:
@@ -118,7 +124,7 @@ class _Case:
                 if isinstance(v, ast.Call) and self.ctx.callee_name(self.f, v) == self.f.name and v.args and isinstance(v.args[0], ast.Attribute) and u(v.args[0].value) == 'r':
                     self.children[name] = v.args[0].attr
                 elif name == 'result':
-                    self.result = (v, st)
+                    self.result = (self.reduce(v), st)
                 else:
                     self.alias[name] = v
                 continue
@@ -131,7 +137,7 @@ class _Case:
                 continue
             if isinstance(st, ast.Return):
                 if st.value is not None and not (isinstance(st.value, ast.Name) and st.value.id == 'result'):
-                    self.result = (st.value, st)
+                    self.result = (self.reduce(st.value), st)
                 return True
             if isinstance(st, ast.Raise):
                 self.result = None
@@ -182,7 +188,7 @@ def check_simplify(ctx, rep, f, rule='R-MODEL.M3'):
         expr, stmt = c.result
         by_field = {fld: var for var, fld in c.children.items()}
         missing = REGEXP_FIELDS[K] - set(by_field) - {'symbol'}
-        key = (K, id(stmt))
+        key = (K, id(stmt), u(expr))
         g = groups.setdefault(key, {'K': K, 'stmt': stmt, 'bad': None, 'n': 0, 'und': None, 'texts': [], 'weak': False})
         g['n'] += 1
         if missing and not (isinstance(expr, ast.Name) and expr.id == 'r'):
@@ -279,7 +285,8 @@ def check_simplify(ctx, rep, f, rule='R-MODEL.M3'):
             rep.holds(rule, f, g['stmt'], 'for a {} node this result is a Kleene-algebra identity in all {} class cases that reach it (e.g. {}), children simplified first, expression not grown'.format(g['K'], g['n'], '; '.join(g['texts'][:2])))
     rep.extra['simplify_rules_extracted'] = extracted
     rep.extra['simplify_cases'] = len(cases)
-    return n
+    rep.extra['simplify_results'] = n
+    return len(cases)
 
 
 def check_simplify_spec(ctx, rep, f, rule='R-MODEL.M3'):
